@@ -490,6 +490,40 @@ func zzH_C12_snapshot_restore(t *zzT) {
 	t.Reach("end")
 }
 
+// C12.b+c Snapshot / RestoreSnapshot followed by more writes, Commit and RevertDiff: the restored
+// overlay must carry everything Commit needs (in particular whether a key exists in the store, also
+// when its stored value is the EMPTY byte string, VLO=0). K1 operations, Snapshot, K2 operations,
+// RestoreSnapshot, K3 operations (all through views derived at that moment — views derived before a
+// restore are the subject of zzH_C12_snapshot_restore (c)), Commit: the store holds the reference
+// state; RevertDiff: the store is the initial one byte for byte.
+//
+//zz:opt loop=16
+//zz:quick N=1 K1=1 K2=1 K3=1 VLO=0 VHI=1 READS=1 KLO=2 KHI=2 QLO=1 QHI=1
+//zz:thorough N=2 K1=1 K2=1 K3=2 VLO=0 VHI=1 READS=1
+func zzH_C12_snapshot_commit_revert(t *zzT) {
+	sc := zzBuild(t, 1)
+	k1, k2, k3 := t.Param("K1", 1), t.Param("K2", 1), t.Param("K3", 1)
+	sc.zzOps(t, 0, k1)
+	atSnap := sc.ref.clone()
+	id := sc.root.Snapshot()
+	sc.zzOps(t, k1, k2)
+	t.Assert(sc.root.RestoreSnapshot(id) == nil, "RestoreSnapshot of a live snapshot id succeeds")
+	sc.ref = atSnap
+	sc.views[0] = sc.root.WithPrefix(sc.prefix[0])
+	sc.zzOps(t, k1+k2, k3)
+	diff := sc.root.Commit(sc.store)
+	t.Assert(zzSameStore(sc.store, sc.ref), "Commit after a restored snapshot writes exactly the staged final state")
+	sc.root.RevertDiff(sc.store, diff)
+	same := len(sc.store.e) == len(sc.init.e)
+	if same {
+		for i := range sc.init.e {
+			same = same && bytes.Equal(sc.store.e[i].k, sc.init.e[i].k) && bytes.Equal(sc.store.e[i].v, sc.init.e[i].v)
+		}
+	}
+	t.Assert(same, "Commit after a restored snapshot, then RevertDiff, restores the initial store byte for byte")
+	t.Reach("end")
+}
+
 // zzCommitScenario: K operations (Set/Del/Get) through two views, then Commit into the store.
 func zzCommitScenario(t *zzT) (*zzScenario, []zzOpInfo, *Diff) {
 	sc := zzBuild(t, 2)
